@@ -184,6 +184,10 @@ def emit() -> dict[str, str]:
             if sets_false and ("_has_explicit_arrow_type" in t or "ArrowType" in t) and ("overrides" in t or "_ARROW_FIELD_OVERRIDES" in t):
                 refuses = True
 
+    # _serialize: columns with a dictionary below a struct are built dictionary-free and cast (null-struct children stay valid)
+    ser_src = ast.unparse(_func(tree, "_serialize"))
+    builds_free = "encoder.build_types[index]" in ser_src and ".cast(encoder.types[index])" in ser_src
+
     def b(x: bool) -> str:
         return "true" if x else "false"
 
@@ -217,6 +221,8 @@ def setRecurses : Bool := {b(set_rec)}
 def dictRecurses : Bool := {b(dict_rec)}
 /-- shape: `_compact_plan` refuses a field carrying an explicit `ArrowType` / `_ARROW_FIELD_OVERRIDES` entry -/
 def compactRefusesExplicit : Bool := {b(refuses)}
+/-- shape: `_serialize` builds a column whose type has a dictionary below a struct dictionary-free and casts it -/
+def buildsDictionaryFree : Bool := {b(builds_free)}
 /-- shape: Enum lookup by name, then by value -/
 def enumFallbackByValue : Bool := {b(enum_fallback)}
 
